@@ -67,6 +67,11 @@ def enumerate_cases(tier, seed):
     for si in range(3):
       for q in ("fixed", "po2"):
         out.append(dict(sub="model", prog=prog, stats=si, q=q, _seed=seed))
+  # history: folded layers built WITHOUT a bias quantizer, then populate_bias_quantizer_from_accumulator, then
+  # inference / unfolding: the quantizer the layer reports for its bias is the one it applies
+  for cls in ("QConv2DBatchnorm", "QDepthwiseConv2DBatchnorm"):
+    for si in range(3):
+      out.append(dict(sub="populate", cls=cls, stats=si, _seed=seed))
   return out
 
 
@@ -326,7 +331,75 @@ def run_model(case):
           "traces": evals, "sample": {"sub": "model", "program": case["prog"], "foldable_pairs": fold}}
 
 
+def run_populate(case):
+  tf = common.tf_init()
+  import qkeras  # pylint: disable=import-outside-toplevel
+  from qkeras import bn_folding_utils  # pylint: disable=import-outside-toplevel
+  from tensorflow.python.ops import math_ops  # pylint: disable=import-outside-toplevel
+  viol = []
+
+  def bad(clause, what):
+    key = "populate:%s:%s" % (case["cls"], clause)
+    if not any(v["key"] == key for v in viol):
+      viol.append({"key": key, "what": "%s after populate_bias_quantizer_from_accumulator: %s" % (case["cls"], what),
+                   "detail": {"case": case}})
+  L = tf.keras.layers
+  inp = L.Input((6, 6, 3), name="inp")
+  kq = "quantized_bits(6,1,1,alpha=1)"
+  if case["cls"] == "QConv2DBatchnorm":
+    lyr = qkeras.QConv2DBatchnorm(2, 2, kernel_quantizer=kq, bias_quantizer=None, name="fold")
+    nch = 2
+  else:
+    lyr = qkeras.QDepthwiseConv2DBatchnorm(2, depthwise_quantizer=kq, bias_quantizer=None, name="fold")
+    nch = 3
+  x = lyr(inp)
+  x = L.Flatten(name="flat")(x)
+  model = tf.keras.Model(inp, x)
+  si = case["stats"]
+  kernel = common.tensor(lyr.get_weights()[0].shape, "grid7", case["_seed"]) * np.float32(0.6)
+  ar = np.arange(nch, dtype=np.float32)
+  vals = {"kernel": kernel, "bias": (0.37 * ar - 0.2).astype(np.float32), "gamma": (np.float32([1.0, -0.5, 2.0][si]) + 0.25 * ar),
+          "beta": (0.3 - 0.1 * ar).astype(np.float32), "moving_mean": (0.05 * ar - 0.4 * si).astype(np.float32),
+          "moving_variance": (np.float32([1.0, 1e-3, 20.0][si]) * (1 + ar)).astype(np.float32)}
+  _set_by_name(lyr, vals)
+  from qkeras import quantizers as Q  # pylint: disable=import-outside-toplevel
+  model = bn_folding_utils.populate_bias_quantizer_from_accumulator(model, [Q.quantized_bits(4, 1, 1)])
+  lyr = model.get_layer("fold")
+  qs = lyr.get_quantizers()
+  evals = 1
+  if qs[1] is None:
+    bad("no-bias-quantizer", "the layer still reports no bias quantizer")
+    return {"evals": evals, "nontrivial": 0, "state": "populate:%s:%d" % (case["cls"], si), "digest": "none", "violations": viol}
+  xs = [common.tensor((2, 6, 6, 3), "ramp", case["_seed"]), common.tensor((2, 6, 6, 3), "grid7", case["_seed"])]
+  eps = lyr.batchnorm.epsilon
+  inv = math_ops.rsqrt(tf.constant(vals["moving_variance"]) + eps) * tf.constant(vals["gamma"].astype(np.float32))
+  fk = (inv if case["cls"] == "QConv2DBatchnorm" else tf.reshape(inv, (1, 1, nch, 1))) * tf.constant(kernel)
+  fb = inv * (tf.constant(vals["bias"]) - tf.constant(vals["moving_mean"])) + tf.constant(vals["beta"])
+  qfk = np.asarray(qs[0](fk), dtype=np.float32)
+  qfb = np.asarray(qs[1](fb), dtype=np.float32)
+  stock = (L.Conv2D(2, 2, use_bias=False) if case["cls"] == "QConv2DBatchnorm" else L.DepthwiseConv2D(2, use_bias=False))
+  stock(tf.constant(xs[0]))
+  stock.set_weights([qfk])
+  um = bn_folding_utils.unfold_model(model)
+  changed = bool(np.any(qfb != np.asarray(fb)))
+  for x in xs:
+    evals += 2
+    y = np.asarray(model(tf.constant(x), training=False), dtype=np.float32)
+    ref = (np.asarray(stock(tf.constant(x)), dtype=np.float32) + qfb).reshape(y.shape)
+    if not np.array_equal(y, ref) and not np.allclose(y, ref, rtol=0, atol=1e-5 * (np.max(np.abs(ref)) + 1e-6)):
+      bad("reported-bias-quantizer-not-applied", "output differs from conv(q(folded kernel)) + q_b(folded bias) with the bias "
+          "quantizer %s the layer reports (max |d| = %g)" % (qs[1], float(np.max(np.abs(y.astype(np.float64) - ref)))))
+    yu = np.asarray(um(tf.constant(x), training=False), dtype=np.float32)
+    if not np.array_equal(y, yu) and not np.allclose(y, yu, rtol=0, atol=1e-5 * (np.max(np.abs(y)) + 1e-6)):
+      bad("unfold", "unfold_model changes the predictions (max |d| = %g)" % float(np.max(np.abs(y.astype(np.float64) - yu))))
+  return {"evals": evals, "transitions": evals, "nontrivial": int(changed), "state": "populate:%s:%d" % (case["cls"], si),
+          "digest": common.digest(qfb, str(qs[1])), "violations": viol, "traces": evals,
+          "sample": {"sub": "populate", "cls": case["cls"], "bias_quantizer_after_populate": str(qs[1])}}
+
+
 def run_case(case):
   common.tf_init()
   common.reset_keras()
+  if case["sub"] == "populate":
+    return run_populate(case)
   return run_layer(case) if case["sub"] == "layer" else run_model(case)
